@@ -90,6 +90,9 @@ def c17Update (c : FAgents.MomP) (m pm pl : F) (prevB nextB : Obs) : List String
   let nMarket (tr : Nat) := (newOs.filter fun o => o.trader == tr && isMarketOrder o).length
   let p0 (p : F) := !F64.lt (.fin 0) p
   let p1 (p : F) := FAgents.ge p (.fin 1)
+  -- the signal is updated from successive MID-prices: what the book reports as its mid-price (the value the
+  -- agent reads) must be the midpoint of its touch prices, crossed or not
+  Audit.chk "observed_mid_is_not_the_touch_midpoint" (prevB.mid2 == some (prevB.bidAsk.1 + prevB.bidAsk.2)) ++
   Audit.chk "trades_with_zero_momentum" (pos || neg || newOs.isEmpty) ++
   Audit.chk "sell_with_positive_momentum" (!pos || newOs.all fun o => o.side == .bid) ++
   Audit.chk "buy_with_negative_momentum" (!neg || newOs.all fun o => o.side == .ask) ++
